@@ -1,8 +1,165 @@
-(* C18 — property theorems (work in progress) *)
-From Coq Require Import List ZArith QArith.
+(* C18 — Normalisation statistics, deltas and returns equal their defining formulas.
+   Property theorems only: each is closed by [exact <lemma of the Proofs files>] and followed
+   by [Print Assumptions].  The harness re-checks this file on every run.
+
+   Numbers are exact rationals (IEEE rounding is not modelled); [==] is equality of rationals.
+   [sqrt] is an oracle: the model's store() returns variances, and wherever a standard
+   deviation is needed the theorems quantify over any [std] whose square is that variance. *)
+From Coq Require Import List ZArith QArith Permutation.
 From PV Require Import C18.Model C18.Spec C18.Proofs.
 Import ListNotations.
+Local Open Scope Q_scope.
 
-Theorem c18_stub : qsum [] = 0%Q.
-Proof. exact qsum_nil. Qed.
-Print Assumptions c18_stub.
+(* ---- statistics ----------------------------------------------------------------------- *)
+
+(* the running count / sum / sum of squares after accumulating ANY non-empty list of tensors
+   (any shapes, any number of dimensions, as long as dim is legal and they agree on the number
+   X of coefficients) are the frame count and the per-coefficient sums of the pooled data *)
+Theorem c18_accumulate_pooled_sums : forall dim X xs,
+  xs <> [] -> uniform dim X xs ->
+  exists s, accumulate_all dim None xs = Ok (Some s) /\
+    length (ssum s) = X /\ length (ssq s) = X /\
+    cnt s == qofnat (frames dim xs) /\
+    forall i, (i < X)%nat ->
+      nth i (ssum s) 0 == Qsum (pooled dim xs i) /\
+      nth i (ssq s) 0 == Qsum (map qsq (pooled dim xs i)).
+Proof. exact accumulate_pooled_sums. Qed.
+Print Assumptions c18_accumulate_pooled_sums.
+
+(* "Mean-variance statistics accumulated over any partition of the data ... equal the pooled
+   population mean and (biased or Bessel-corrected) standard deviation of all frames"
+   (var = std^2; the clamp at 0 that store() applies never bites in exact arithmetic) *)
+Theorem c18_store_is_pooled_mean_var : forall dim X xs b,
+  xs <> [] -> uniform dim X xs -> (2 <= frames dim xs)%nat ->
+  exists mean var,
+    bind (accumulate_all dim None xs) (fun s => store s b) = Ok (mean, var) /\
+    length mean = X /\ length var = X /\
+    forall i, (i < X)%nat ->
+      nth i mean 0 == pop_mean (pooled dim xs i) /\ nth i var 0 == pop_var b (pooled dim xs i).
+Proof. exact store_is_pooled_mean_var. Qed.
+Print Assumptions c18_store_is_pooled_mean_var.
+
+(* with fewer than two frames store() raises (for either setting of bessel: as coded) *)
+Theorem c18_store_needs_two_frames : forall dim X xs b,
+  xs <> [] -> uniform dim X xs -> (frames dim xs < 2)%nat ->
+  bind (accumulate_all dim None xs) (fun s => store s b) = Err ERuntime.
+Proof. exact store_too_few_frames. Qed.
+Print Assumptions c18_store_needs_two_frames.
+
+(* "over any partition of the data, in any order": two histories whose pooled coefficient
+   values are permutations of each other - different chunking, order, tensor shapes, numbers
+   of dimensions, even a different dim argument - store the same mean and variance *)
+Theorem c18_stats_partition_order_invariant : forall dim dim' X xs xs' b,
+  (0 < X)%nat -> xs <> [] -> xs' <> [] -> uniform dim X xs -> uniform dim' X xs' ->
+  (forall i, (i < X)%nat -> Permutation (pooled dim xs i) (pooled dim' xs' i)) ->
+  same_result (bind (accumulate_all dim None xs) (fun s => store s b))
+              (bind (accumulate_all dim' None xs') (fun s => store s b)).
+Proof. exact stats_partition_order_invariant. Qed.
+Print Assumptions c18_stats_partition_order_invariant.
+
+(* "normalising with them gives each coefficient zero mean and unit variance over the pooled
+   data": accumulate, store, take std with std^2 = var (positive and not below eps), normalise
+   every accumulated tensor; the pooled result has mean 0 and (biased resp. Bessel) variance 1 *)
+Theorem c18_normalised_zero_mean_unit_var : forall dim X xs ys b mean var std eps i,
+  xs <> [] -> uniform dim X xs -> (2 <= frames dim xs)%nat ->
+  bind (accumulate_all dim None xs) (fun s => store s b) = Ok (mean, var) ->
+  length std = X -> (i < X)%nat ->
+  nth i std 0 * nth i std 0 == nth i var 0 ->
+  0 < nth i std 0 -> eps <= nth i std 0 ->
+  Forall2 (fun x y => exists sg ov, mean_var_norm x dim (Some mean) (Some std) eps sg = Ok (y, ov)) xs ys ->
+  pop_mean (pooled dim ys i) == 0 /\ pop_var b (pooled dim ys i) == 1.
+Proof. exact accumulate_store_normalise. Qed.
+Print Assumptions c18_normalised_zero_mean_unit_var.
+
+(* the same for statistics handed to the module directly, whatever their origin *)
+Theorem c18_normalised_given_stats : forall dim X mean std eps b xs ys i,
+  uniform dim X xs -> length mean = X -> length std = X -> (i < X)%nat ->
+  Forall2 (fun x y => exists sg ov, mean_var_norm x dim (Some mean) (Some std) eps sg = Ok (y, ov)) xs ys ->
+  (0 < frames dim xs)%nat ->
+  nth i mean 0 == pop_mean (pooled dim xs i) ->
+  nth i std 0 * nth i std 0 == pop_var b (pooled dim xs i) ->
+  0 < nth i std 0 -> eps <= nth i std 0 ->
+  pop_mean (pooled dim ys i) == 0 /\ pop_var b (pooled dim ys i) == 1.
+Proof. exact normalised_zero_mean_unit_var. Qed.
+Print Assumptions c18_normalised_given_stats.
+
+(* what the normalisation does to every coefficient: y = (x - mean_i) / max(std_i, eps) *)
+Theorem c18_normalisation_formula : forall x dim d mean std eps sigma y ov i,
+  norm_dim (length (shape x)) dim = Some d ->
+  length mean = nth d (shape x) 0%nat -> length std = nth d (shape x) 0%nat ->
+  mean_var_norm x dim (Some mean) (Some std) eps sigma = Ok (y, ov) ->
+  (i < nth d (shape x) 0)%nat ->
+  shape y = shape x /\
+  coeff_vals y d i = map (fun q => (q - nth i mean 0) / qmax (nth i std 0) eps) (coeff_vals x d i).
+Proof. exact coeff_vals_norm_given. Qed.
+Print Assumptions c18_normalisation_formula.
+
+(* "without stored statistics the input's own statistics are used": the subtracted mean is
+   the population mean of the coefficient, the variance whose root is taken is its biased
+   population variance, and the division is by max(sigma_i, eps) *)
+Theorem c18_own_stats_when_none : forall x dim d eps sigma y ov i,
+  norm_dim (length (shape x)) dim = Some d ->
+  mean_var_norm x dim None None eps sigma = Ok (y, ov) ->
+  (i < nth d (shape x) 0)%nat -> (0 < rows_width x d)%nat ->
+  exists mu,
+    mu == pop_mean (coeff_vals x d i) /\
+    nth i ov 0 == pop_var false (coeff_vals x d i) /\
+    shape y = shape x /\
+    coeff_vals y d i = map (fun q => (q - mu) / qmax (nth i sigma 0) eps) (coeff_vals x d i).
+Proof. exact own_stats_when_none. Qed.
+Print Assumptions c18_own_stats_when_none.
+
+Theorem c18_own_stats_normalised : forall x dim d eps sigma y ov i,
+  norm_dim (length (shape x)) dim = Some d ->
+  mean_var_norm x dim None None eps sigma = Ok (y, ov) ->
+  (i < nth d (shape x) 0)%nat -> (0 < rows_width x d)%nat ->
+  nth i sigma 0 * nth i sigma 0 == nth i ov 0 -> 0 < nth i sigma 0 -> eps <= nth i sigma 0 ->
+  pop_mean (coeff_vals y d i) == 0 /\ pop_var false (coeff_vals y d i) == 1.
+Proof. exact own_stats_normalised. Qed.
+Print Assumptions c18_own_stats_normalised.
+
+(* ---- deltas --------------------------------------------------------------------------- *)
+
+(* the model's list-building padding is the position-wise extension of the specification *)
+Theorem c18_padding_is_extension : forall m v p x j,
+  (1 <= length x)%nat -> pad_ok m p (length x) = true -> (j < length x + 2 * p)%nat ->
+  nth j (pad m v p x) 0 = ext m v x (Z.of_nat j - Z.of_nat p).
+Proof. exact pad_spec. Qed.
+Print Assumptions c18_padding_is_extension.
+
+(* "Delta features of every order equal the recursive regression formula applied to the input
+   extended by the chosen edge padding": one convolution with the composite FIR filters, for
+   every order o, width w, padding mode, line length T >= 1 the padding accepts *)
+Theorem c18_delta_line_eq_regression : forall m v o w x u t,
+  (1 <= length x)%nat -> pad_ok m (w * o) (length x) = true -> (u <= o)%nat -> (t < length x)%nat ->
+  nth t (nth u (delta_line m v o w x) []) 0 == regress w u (ext m v x) (Z.of_nat t).
+Proof. exact delta_line_eq_regression. Qed.
+Print Assumptions c18_delta_line_eq_regression.
+
+(* ---- returns -------------------------------------------------------------------------- *)
+
+(* "Discounted returns satisfy R_t = r_t + gamma * R_(t+1) with R beyond the horizon equal to
+   zero, for either layout": every gamma (0, negative, above 1 included) *)
+Theorem c18_return_recursion : forall r g (bf : bool) T N out,
+  shape r = (if bf then [N; T] else [T; N]) ->
+  time_distributed_return r g bf = Ok out ->
+  shape out = shape r /\
+  forall t n, (t < T)%nat -> (n < N)%nat ->
+    at2 bf out t n == at2 bf r t n + g * (if (S t <? T)%nat then at2 bf out (S t) n else 0).
+Proof. exact return_recursion. Qed.
+Print Assumptions c18_return_recursion.
+
+(* ... hence it is THE return: the fold of the declarative recursion over each reward column *)
+Theorem c18_return_eq_spec : forall r g (bf : bool) T N out,
+  shape r = (if bf then [N; T] else [T; N]) ->
+  time_distributed_return r g bf = Ok out ->
+  forall t n, (t < T)%nat -> (n < N)%nat ->
+    at2 bf out t n == nth t (ret_rec g (map (fun k => at2 bf r k n) (seq 0 T))) 0.
+Proof. exact return_eq_spec. Qed.
+Print Assumptions c18_return_eq_spec.
+
+(* the only error: an input that is not two-dimensional *)
+Theorem c18_return_error_iff : forall r g bf,
+  time_distributed_return r g bf = Err ERuntime <-> length (shape r) <> 2%nat.
+Proof. exact return_error_iff. Qed.
+Print Assumptions c18_return_error_iff.
